@@ -3199,7 +3199,7 @@ def grouped_reduce(inp: AlignedArrays, *, agg: Scan, axis: int, keepdims=None) -
         func=(agg.reduction,),
         axis=axis,
         engine="flox",
-        dtype=inp.array.dtype,
+        dtype=agg.dtype,
         fill_value=agg.identity,
         expected_groups=None,
     )
